@@ -14,8 +14,13 @@ verus! {
 // ---------------- shims (assumed; listed in NOTES.md) ----------------
 /// name of the generated column number n (text `field{n}`)
 pub uninterp spec fn numbered_name(n: int) -> Seq<char>;
-/// number of pieces of `s.split('\t')` (= number of tab characters + 1)
-pub uninterp spec fn tab_pieces(s: Seq<char>) -> int;
+/// number of pieces of `s.split(sep)` (= number of `sep` characters + 1)
+pub uninterp spec fn sep_pieces(s: Seq<char>, sep: char) -> int;
+/// number of pieces of `s.split('\t')`: the TAB-separated columns
+pub open spec fn tab_pieces(s: Seq<char>) -> int { sep_pieces(s, '\t') }
+/// number of items of `s.split_whitespace()` (maximal runs of non-whitespace): a DIFFERENT function of the text -- it is not
+/// the number of TAB-separated columns (a blank inside a column adds one, an empty column removes one)
+pub uninterp spec fn ws_tokens(s: Seq<char>) -> int;
 
 #[verifier::external_body]
 pub struct Out { _p: u8 }
@@ -50,11 +55,17 @@ fn numbered_field(n: usize) -> (r: &'static str)
 fn str_is_empty(s: &str) -> (r: bool)
     ensures r == (s@.len() == 0),
 { s.is_empty() }
-/// `rest.split('\t').count()`: at least one piece; a str is at most isize::MAX bytes long
+/// `rest.split(sep).count()` (REAL std contract): the number of `sep`-separated pieces, at least one (also for the empty
+/// text); a str is at most isize::MAX bytes long.  Only `sep == '\t'` gives the number of BED columns.
 #[verifier::external_body]
-fn tab_columns(s: &str) -> (r: usize)
-    ensures r as int == tab_pieces(s@), 1 <= r <= usize::MAX / 2 + 1,
-{ s.split('\t').count() }
+fn split_columns(s: &str, sep: char) -> (r: usize)
+    ensures r as int == sep_pieces(s@, sep), 1 <= r <= usize::MAX / 2 + 1,
+{ s.split(sep).count() }
+/// `rest.split_whitespace().count()` (REAL std contract): the number of whitespace-separated tokens -- possibly 0
+#[verifier::external_body]
+fn whitespace_tokens(s: &str) -> (r: usize)
+    ensures r as int == ws_tokens(s@), 0 <= r <= usize::MAX / 2 + 1,
+{ s.split_whitespace().count() }
 fn min_usize(a: usize, b: usize) -> (r: usize) ensures r == (if a <= b { a } else { b }) { if a <= b { a } else { b } }
 fn saturating_sub_usize(a: usize, b: usize) -> (r: usize) ensures r == (if a >= b { a - b } else { 0 }) { if a >= b { a - b } else { 0 } }
 fn max_usize(a: usize, b: usize) -> (r: usize) ensures r == (if a >= b { a } else { b }) { if a >= b { a } else { b } }
@@ -81,7 +92,10 @@ pub open spec fn extra_name(i: int) -> Seq<char> {
 //@rule R16
 //@sub /-> String/ => -> Out min=1
 //@sub /rest\.is_empty\(\)/ => str_is_empty(rest) min=0
-//@sub /rest\.split\('\\t'\)\.count\(\)/ => tab_columns(rest) min=1
+//@presub /\s+\.(?=[a-z_0-9])/ => . min=0
+//@sub /rest\.split\(('(?:\\.|[^'\\])')\)\.count\(\)/ => split_columns(rest, \1) min=0
+//@sub /rest\.split\("((?:\\.|[^"\\]))"\)\.count\(\)/ => split_columns(rest, '\1') min=0
+//@sub /rest\.split_whitespace\(\)\.count\(\)/ => whitespace_tokens(rest) min=0
 //@sub /"\\\ntable bed\n\\"[^\n]*\n\(\n\s+\w+\s+(\w+);[^\n]*\n\s+\w+\s+(\w+);[^\n]*\n\s+\w+\s+(\w+);[^\n]*\n"\s*\.to_string\(\)/ => Out::header3("\1", "\2", "\3") min=1
 //@sub /const FIELDS: &\[&str\] = &\[/ => let FIELDS: Vec<&'static str> = vec![ min=1
 //@sub /^(\s*)"\s*[\w\[\]]+\s+(\w+);[^\n]*\\n",$/ => \1"\2", min=0
@@ -106,7 +120,7 @@ pub open spec fn extra_name(i: int) -> Seq<char> {
 //@loop 1
         invariant
             [[L: std/frame]]
-            extra_fields as int == n_extra(rest@), same_names(FIELDS@),
+            same_names(FIELDS@),
             def.tail() == Seq::<char>::empty(),
             [[L: std/count]]
             def.fields().len() == 3 + i__1,
@@ -116,7 +130,7 @@ pub open spec fn extra_name(i: int) -> Seq<char> {
 //@loop 2
         invariant
             [[L: numbered/frame]]
-            extra_fields as int == n_extra(rest@), same_names(FIELDS@), extra_fields <= usize::MAX / 2 + 1,
+            same_names(FIELDS@), extra_fields <= usize::MAX / 2 + 1,
             def.tail() == Seq::<char>::empty(),
             [[L: numbered/count]]
             def.fields().len() == 3 + (if extra_fields < FIELDS@.len() { extra_fields as int } else { i as int }),
